@@ -1,113 +1,11 @@
 --------------------------- MODULE PathInterp ---------------------------
 (***************************************************************************)
-(* The SVG path-data interpreter (SVG 1.1 section 8.3, SVG 2 section 9.3)  *)
-(* as a state machine over exact integer coordinates.                      *)
-(*                                                                         *)
-(* State  : cur  - current point (NONE before the first move)              *)
-(*          zp   - start point of the current sub-path                     *)
-(*          ctl  - last control point of the preceding curve, deg its      *)
-(*                 degree (2 quadratic, 3 cubic, 0 = no curve precedes)    *)
-(*          segs - the segments drawn so far                               *)
-(*          hist - the commands issued so far (history; one behaviour      *)
-(*                 prefix per distinct state)                              *)
-(*                                                                         *)
-(* A command is <<letter, args, impl, cz>>: letter in "MmLlHhVvCcSsQqTtAaZz"*)
-(* args the flat tuple of numbers, impl = written without its letter       *)
-(* (implicit repetition), cz = the final coordinate pair is replaced by a  *)
-(* segment-completing close path (SVG 2).                                  *)
-(*                                                                         *)
-(* A segment is <<kind, start, c1, c2, end>>, kind in M L Q C A Z; for an  *)
-(* arc c1 = <<rx, ry, rotation>> and c2 = <<large, sweep>>.                *)
-(*                                                                         *)
-(* Used by: C01 (interpretation), C09 (total token machine, PathTok),      *)
-(* C17 (continuation), C07 (Interp o Write = id).                          *)
+(* The SVG path-data interpreter as a state machine: the variables and     *)
+(* the step of the machine; the semantics of one command (Exec, Conforms)  *)
+(* live in the constant module PathSem so that trace specifications and    *)
+(* other modules can reuse them without these variables.                   *)
 (***************************************************************************)
-EXTENDS Integers, Sequences
-
-NONE == <<>>
-
-Pt(a, i)   == <<a[i], a[i + 1]>>
-Add(p, q)  == <<p[1] + q[1], p[2] + q[2]>>
-Refl(c, p) == <<2 * p[1] - c[1], 2 * p[2] - c[2]>>      \* reflect c about p
-
-RelLetters  == {"m", "l", "h", "v", "c", "s", "q", "t", "a", "z"}
-AbsLetters  == {"M", "L", "H", "V", "C", "S", "Q", "T", "A", "Z"}
-Letters     == RelLetters \cup AbsLetters
-IsRel(l)    == l \in RelLetters
-Upper(l) == CASE l = "m" -> "M" [] l = "l" -> "L" [] l = "h" -> "H" [] l = "v" -> "V"
-              [] l = "c" -> "C" [] l = "s" -> "S" [] l = "q" -> "Q" [] l = "t" -> "T"
-              [] l = "a" -> "A" [] l = "z" -> "Z" [] OTHER -> l
-\* number of numeric arguments of one argument group
-Arity(l) == CASE Upper(l) = "M" -> 2 [] Upper(l) = "L" -> 2 [] Upper(l) = "T" -> 2
-              [] Upper(l) = "H" -> 1 [] Upper(l) = "V" -> 1
-              [] Upper(l) = "C" -> 6 [] Upper(l) = "S" -> 4 [] Upper(l) = "Q" -> 4
-              [] Upper(l) = "A" -> 7 [] OTHER -> 0
-\* commands whose final coordinate pair may be a segment-completing close
-Completable(l) == Upper(l) \in {"L", "C", "S", "Q", "T", "A"}
-
-(***************************************************************************)
-(* Exec: one command applied to an interpreter state                       *)
-(* s = <<cur, zp, ctl, deg, segs>>                                         *)
-(***************************************************************************)
-Exec(s, c) ==
-  LET cur == s[1]  zp == s[2]  ctl == s[3]  deg == s[4]  segs == s[5]
-      l == c[1]  a == c[2]  cz == c[4]
-      U == Upper(l)
-      Abs(p) == IF IsRel(l) /\ cur # NONE THEN Add(cur, p) ELSE p
-      \* end point: the last pair of the group, or the sub-path start when completing
-      EndAt(i) == IF cz THEN zp ELSE Abs(Pt(a, i))
-      Fin(st) ==  \* a completing close appends the close itself
-        IF cz THEN <<zp, zp, NONE, 0,
-                     Append(st[5], <<"Z", st[1], NONE, NONE, zp>>)>>
-              ELSE st
-  IN
-  CASE U = "M" ->
-         LET e == Abs(Pt(a, 1)) IN
-         <<e, e, NONE, 0, Append(segs, <<"M", NONE, NONE, NONE, e>>)>>
-    [] U = "Z" ->
-         <<zp, zp, NONE, 0, Append(segs, <<"Z", cur, NONE, NONE, zp>>)>>
-    [] U = "L" ->
-         LET e == EndAt(1) IN
-         Fin(<<e, zp, NONE, 0, Append(segs, <<"L", cur, NONE, NONE, e>>)>>)
-    [] U = "H" ->
-         LET e == IF IsRel(l) THEN <<cur[1] + a[1], cur[2]>> ELSE <<a[1], cur[2]>> IN
-         <<e, zp, NONE, 0, Append(segs, <<"L", cur, NONE, NONE, e>>)>>
-    [] U = "V" ->
-         LET e == IF IsRel(l) THEN <<cur[1], cur[2] + a[1]>> ELSE <<cur[1], a[1]>> IN
-         <<e, zp, NONE, 0, Append(segs, <<"L", cur, NONE, NONE, e>>)>>
-    [] U = "C" ->
-         LET c1 == Abs(Pt(a, 1))  c2 == Abs(Pt(a, 3))  e == EndAt(5) IN
-         Fin(<<e, zp, c2, 3, Append(segs, <<"C", cur, c1, c2, e>>)>>)
-    [] U = "S" ->   \* reflects only the control of a preceding CUBIC (SVG 8.3.6)
-         LET c1 == IF deg = 3 THEN Refl(ctl, cur) ELSE cur
-             c2 == Abs(Pt(a, 1))  e == EndAt(3) IN
-         Fin(<<e, zp, c2, 3, Append(segs, <<"C", cur, c1, c2, e>>)>>)
-    [] U = "Q" ->
-         LET c1 == Abs(Pt(a, 1))  e == EndAt(3) IN
-         Fin(<<e, zp, c1, 2, Append(segs, <<"Q", cur, c1, NONE, e>>)>>)
-    [] U = "T" ->   \* reflects only the control of a preceding QUADRATIC (SVG 8.3.7)
-         LET c1 == IF deg = 2 THEN Refl(ctl, cur) ELSE cur
-             e == EndAt(1) IN
-         Fin(<<e, zp, c1, 2, Append(segs, <<"Q", cur, c1, NONE, e>>)>>)
-    [] U = "A" ->
-         LET e == EndAt(6) IN
-         Fin(<<e, zp, NONE, 0,
-               Append(segs, <<"A", cur, <<a[1], a[2], a[3]>>, <<a[4], a[5]>>, e>>)>>)
-
-\* The letter in force after a command (what an implicit repetition repeats).
-\* After M/m further pairs are L/l (SVG 8.3.2); after z or a completing close nothing repeats.
-InForce(c) == IF c[4] THEN "z"
-              ELSE CASE c[1] = "M" -> "L" [] c[1] = "m" -> "l" [] OTHER -> c[1]
-
-\* Grammar conformance of issuing c after history h in a state with current point cur
-Conforms(cur, h, c) ==
-  /\ c[1] \in Letters
-  /\ (cur = NONE) => Upper(c[1]) = "M"             \* path data begins with a moveto
-  /\ c[4] => Completable(c[1]) /\ ~c[3]   \* SVG 2: (coordinate_pair_sequence? closepath) follows the letter itself
-  /\ Len(c[2]) = (IF c[4] THEN Arity(c[1]) - 2 ELSE Arity(c[1]))
-  /\ c[3] => /\ h # <<>>
-             /\ Upper(c[1]) # "Z"
-             /\ InForce(h[Len(h)]) = c[1]
+EXTENDS PathSem
 
 VARIABLES cur, zp, ctl, deg, segs, hist
 vars == <<cur, zp, ctl, deg, segs, hist>>
